@@ -413,6 +413,19 @@ Proof.
   rewrite B, M. cbn [translate_line l_start]. apply bresenham_run_translate.
 Qed.
 
+(* ---- Line::with_delta / Line::delta ------------------------------------------ *)
+Lemma with_delta_delta l : with_delta (l_start l) (line_delta l) = l.
+Proof.
+  destruct l as [[sx sy] [ex ey]]. unfold with_delta, line_delta, psub. cbn [l_start l_end px py].
+  f_equal. f_equal; lia.
+Qed.
+
+Lemma delta_with_delta s d : line_delta (with_delta s d) = d /\ l_start (with_delta s d) = s.
+Proof.
+  destruct s as [sx sy]. destruct d as [dx dy]. unfold with_delta, line_delta, psub. cbn [l_start l_end px py].
+  split; [f_equal; lia | reflexivity].
+Qed.
+
 (* ---- no i32 overflow within line_ok ---------------------------------------- *)
 (* the states before each call of next, and after the last *)
 Fixpoint bstates (p : bparams) (s : bstate) (n : nat) : list bstate :=
